@@ -30,6 +30,7 @@ type handle struct {
 
 type kind struct {
 	name  string
+	dupOf string // non-empty: only allowed directly or indirectly behind the named kind, answered in issue order
 	class string // ambiguity class: at most one pending command per class ("" = none)
 	lines int    // CRLFs the client writes for the command
 	issue func(c *imapclient.Client) handle
@@ -221,6 +222,42 @@ func kinds() []kind {
 				return err, strings.Join(s, " ")
 			}}
 		}},
+		// second commands of an ambiguity class: only issued behind the first one and answered strictly
+		// in issue order (what a server that processes commands sequentially does); routing must be FIFO
+		{name: "LIST#2", class: "list", dupOf: "LIST", lines: 1, data: []string{`* LIST () "/" second`}, want: "second", issue: func(c *imapclient.Client) handle {
+			cmd := c.List("", "s*", nil)
+			return handle{func() (error, string) {
+				l, err := cmd.Collect()
+				var n []string
+				for _, d := range l {
+					n = append(n, d.Mailbox)
+				}
+				return err, strings.Join(n, ",")
+			}}
+		}},
+		{name: "SEARCH#2", class: "search", dupOf: "SEARCH", lines: 1, data: []string{"* SEARCH 7"}, want: "7", issue: func(c *imapclient.Client) handle {
+			cmd := c.Search(&imap.SearchCriteria{Body: []string{"y"}}, nil)
+			return handle{func() (error, string) {
+				d, err := cmd.Wait()
+				s := ""
+				if d != nil && d.All != nil {
+					s = d.All.String()
+				}
+				return err, s
+			}}
+		}},
+		{name: "EXPUNGE#2", class: "expunge", dupOf: "EXPUNGE", lines: 1, data: []string{"* 1 EXPUNGE"}, want: "1", issue: func(c *imapclient.Client) handle {
+			cmd := c.Expunge()
+			return handle{func() (error, string) {
+				l, err := cmd.Collect()
+				var s []string
+				for _, n := range l {
+					s = append(s, fmt.Sprint(n))
+				}
+				return err, strings.Join(s, ",")
+			}}
+		}},
+		{name: "FETCH 3:4", class: "fetch", dupOf: "FETCH 1:2", lines: 1, data: []string{`* 3 FETCH (FLAGS (\Draft))`, `* 4 FETCH (FLAGS ())`}, want: "3:\\Draft;4:", issue: fetchIssue(func() imap.NumSet { var s imap.SeqSet; s.AddRange(3, 4); return s }())},
 		{name: "UNSELECT", class: "select", lines: 1, effect: func(m *model) { m.state = "authenticated"; m.mbox = nil }, issue: func(c *imapclient.Client) handle {
 			cmd := c.Unselect()
 			return handle{func() (error, string) { return cmd.Wait(), "" }}
@@ -399,7 +436,18 @@ func runScenario(sc *scenario, ks []kind) func() interface{} {
 				apply()
 			}
 		}
+		var lastSnap *imapclient.SelectedMailbox
+		var lastCopy imapclient.SelectedMailbox
 		check := func(at string, selectPending bool) {
+			// a snapshot handed out by Mailbox() earlier must never change afterwards (copy-on-write)
+			if lastSnap != nil {
+				if lastSnap.Name != lastCopy.Name || lastSnap.NumMessages != lastCopy.NumMessages || flagsStr(lastSnap.Flags) != flagsStr(lastCopy.Flags) || flagsStr(lastSnap.PermanentFlags) != flagsStr(lastCopy.PermanentFlags) {
+					probs = append(probs, problem{"mailbox-snapshot-mutated", fmt.Sprintf("after %q: a SelectedMailbox returned earlier by Mailbox() changed from %+v to %+v", at, lastCopy, *lastSnap)})
+				}
+			}
+			if lastSnap = c.Mailbox(); lastSnap != nil {
+				lastCopy = *lastSnap
+			}
 			if selectPending {
 				return // while a SELECT is in flight the summary is in transition
 			}
@@ -557,7 +605,7 @@ func runScenario(sc *scenario, ks []kind) func() interface{} {
 								m.state = "authenticated" // failed SELECT leaves no mailbox selected
 								m.mbox = nil
 							}
-						} else if k.name == "EXPUNGE" && m.state == "selected" && m.mbox.num > 0 {
+						} else if strings.HasPrefix(k.name, "EXPUNGE") && m.state == "selected" && m.mbox.num > 0 {
 							m.mbox.num--
 						}
 					})
@@ -715,17 +763,24 @@ func enumerate(ks []kind, thorough bool) []item {
 				items = append(items, item{Start: start, Cmds: append([]int{}, prefix...)})
 			}
 		}
-		if len(prefix) == maxCmds {
+		if len(prefix) > maxCmds {
 			return
 		}
 		for k := 0; k < len(ks); k++ {
+			if len(prefix) == maxCmds && ks[k].dupOf == "" {
+				continue // one extra position only for the second command of an ambiguity class
+			}
 			ok := true
+			hasBase := ks[k].dupOf == ""
 			for _, p := range prefix {
-				if p == k || (ks[k].class != "" && ks[p].class == ks[k].class) {
+				if p == k || (ks[k].class != "" && ks[p].class == ks[k].class && ks[k].dupOf != ks[p].name) {
 					ok = false
 				}
+				if ks[k].dupOf != "" && ks[p].name == ks[k].dupOf {
+					hasBase = true
+				}
 			}
-			if ok {
+			if ok && hasBase {
 				rec(append(prefix, k))
 			}
 		}
@@ -779,6 +834,9 @@ func expand(it item, ks []kind, thorough bool, f func(sc *scenario)) {
 				}
 			}
 			for _, ord := range interleavings(counts) {
+				if !sequentialPerClass(ord, p, ks) {
+					continue
+				}
 				sc := scenario{Start: it.Start, Cmds: p, Outcomes: append([]outcome{}, prefix...), Order: ord}
 				sc.Name = describe(&sc, ks)
 				f(&sc)
@@ -790,6 +848,31 @@ func expand(it item, ks []kind, thorough bool, f func(sc *scenario)) {
 		}
 	}
 	orec(nil)
+}
+
+// sequentialPerClass: two commands of one ambiguity class are answered one after the other, in
+// issue order (every line of the first before any line of the second).
+func sequentialPerClass(ord []int, cmds []int, ks []kind) bool {
+	for i := range cmds {
+		for j := i + 1; j < len(cmds); j++ {
+			if ks[cmds[i]].class == "" || ks[cmds[i]].class != ks[cmds[j]].class {
+				continue
+			}
+			lastI, firstJ := -1, len(ord)
+			for pos, c := range ord {
+				if c == i {
+					lastI = pos
+				}
+				if c == j && pos < firstJ {
+					firstJ = pos
+				}
+			}
+			if lastI > firstJ {
+				return false
+			}
+		}
+	}
+	return true
 }
 
 func describe(sc *scenario, ks []kind) string {
